@@ -327,20 +327,13 @@ Theorem seq_refuted : exists vals es, model_seq vals true es <> RRows (spec_seq 
 Proof. exists [[65; 67; 71]], [mk 0 0 1]. vm_compute. discriminate. Qed.
 
 (* ------------------------------------------------------------------ row-wise operations *)
-Theorem rowwise_own_chromosome : forall szs es,
-  model_clip szs es = spec_clip szs es
-  /\ (forall n, model_extend szs n es = spec_extend szs n es)
-  /\ (forall l r, model_windows szs l r es = spec_windows szs l r es)
-  /\ (forall e, In e (spec_clip szs es) -> 0 <= e_start e /\ e_stop e <= size_of szs (e_chr e))
+Theorem extend_own_chromosome : forall szs es,
+  (forall n, model_extend szs n es = spec_extend szs n es)
   /\ (forall n e, 0 <= n -> In e es -> 0 <= e_start e -> e_stop e <= size_of szs (e_chr e) ->
         let e' := extend1 n (size_of szs (e_chr e)) e in 0 <= e_start e' /\ e_stop e' <= size_of szs (e_chr e)).
 Proof.
-  intros szs es. split; [|split; [|split; [|split]]].
-  - reflexivity.
+  intros szs es. split.
   - intros n. unfold model_extend, spec_extend, extend1. reflexivity.
-  - intros l r. unfold model_windows, spec_windows, model_clip. rewrite map_map. reflexivity.
-  - intros e He. unfold spec_clip in He. apply in_map_iff in He. destruct He as [e0 [<- _]].
-    unfold clip1, set_se. cbn [e_start e_stop e_chr]. lia.
   - intros n e Hn He Hs Ht. unfold extend1. destruct (e_fwd e); unfold set_se; cbn [e_start e_stop]; lia.
 Qed.
 (* a window around a position of a chromosome stays on it, contains the position, and is [p-l, p+r) when that fits *)
